@@ -701,7 +701,8 @@ pub fn c17_case(events: &[Ev], regime: Regime, case: &C17Case) -> (Vec<Violation
                     };
                     for i in 0..c.len() {
                         let want = case.gamma * a[i];
-                        let tol = tol_k() * eps() * (case.gamma.abs() * (node_mag[i] + mmax) + 4.0 * bef[i]) + 1e-300;
+                        // deposits are differences after - before: their absolute error is eps * |before|, scaled by gamma on the right-hand side
+                        let tol = tol_k() * eps() * (case.gamma.abs() * (node_mag[i] + mmax) + 4.0 * bef[i] * case.gamma.abs().max(1.0)) + 1e-300;
                         if !((c[i] - want).abs() <= tol) {
                             viols.push(v("C17", "seed_homogeneity", format!("gamma 2^{}", case.gamma.log2()), e, format!("slot s{} element {}: deposit with seed gamma*s1 is {:e}, gamma*deposit(s1) is {:e} (gamma {:e}, s1 {:?})", s, i, c[i], want, case.gamma, case.s1)));
                             return (viols, forks + 1);
